@@ -362,6 +362,11 @@ def configs(ctx):
 
 
 def run(ctx):
+    fds = qc.fd_count()
+    return qc.fd_audit(_run(ctx), fds)
+
+
+def _run(ctx):
     t0 = time.time()
     so = qc.load(ctx)
     res = {"cases": 0, "distinct": 0, "coverage": {}, "samples": [], "disagreements": [], "violations": []}
@@ -423,10 +428,7 @@ def run(ctx):
                     judge("apply", cfg, ok_set, s, obs)
                 cov["configs_apply"] += 1
         finally:
-            try:
-                o.destroy()
-            except Exception:   # noqa
-                pass
+            qc.close_node(o)
     res["distinct"] = len(seen)
     res["coverage"] = dict(cov)
     res["wall_s"] = round(time.time() - t0, 2)
@@ -453,7 +455,7 @@ def replay(ctx, violation):
             try:
                 s, obs = run_apply(so, o, fq, cfg, r["choices"])
             finally:
-                o.destroy()
+                qc.close_node(o)
     bad = qc.canon([obs["res"], obs["items"]]) not in ok_set
     return {"violated": bool(bad), "observed": obs, "schedule": ["%s:%s" % x for x in s.trace],
             "model_allows": sorted(ok_set)[:8]}
